@@ -579,8 +579,8 @@ fn main() {
                 }
             }
             PadObs::Err(k) => {
-                if d > 0 {
-                    (format!("err:{k}"), Some((format!("pad_to_size|{}|err-above-success:{k}", band(d)), format!("pad_to_size({t}) fails with {k} although the unpadded size {cur} (distance {d}) succeeds"))))
+                if d >= 0 {
+                    (format!("err:{k}"), Some((format!("pad_to_size|{}|err-at-or-above-unpadded:{k}", band(d)), format!("pad_to_size({t}) fails with {k} although the target is {d} bytes above the unpadded size {cur}"))))
                 } else {
                     (format!("err:{k}"), None)
                 }
